@@ -925,7 +925,10 @@ namespace bluetoe {
             return false;
         }
 
-        if ( handle_mapping::first_index_by_handle( starting_handle ) == details::invalid_attribute_index )
+        const std::size_t starting_index = handle_mapping::first_index_by_handle( starting_handle );
+
+        // no attribute within the given range of handles
+        if ( starting_index == details::invalid_attribute_index || handle_mapping::handle_by_index( starting_index ) > ending_handle )
         {
             error_response( *input, details::att_error_codes::attribute_not_found, starting_handle, output, out_size );
             return false;
@@ -1000,11 +1003,7 @@ namespace bluetoe {
         const std::size_t start_index = handle_mapping::first_index_by_handle( starting_handle );
         const bool only_16_bit_uuids = attribute_at( start_index ).uuid != bits( details::gatt_uuids::internal_128bit_uuid );
 
-        std::size_t ending_index = handle_mapping::first_index_by_handle( ending_handle );
-
-        // if the ending handle points not on an existing attribute, the search will end at the next, lower handle
-        if ( ending_index != details::invalid_attribute_index && handle_mapping::handle_by_index( ending_index ) != ending_handle )
-            --ending_index;
+        const std::size_t ending_index = last_handle_index( ending_handle );
 
         std::uint8_t*        write_ptr = &output[ 0 ];
         std::uint8_t* const  write_end = write_ptr + out_size;
@@ -1266,12 +1265,12 @@ namespace bluetoe {
         template < typename CCCDIndices, typename ServiceList, typename Server >
         struct collect_primary_services
         {
-            collect_primary_services( std::uint8_t*& output, std::uint8_t* end, std::uint16_t starting_index, std::uint16_t starting_handle, std::uint16_t ending_handle, std::uint8_t& attribute_data_size, Server& server )
+            collect_primary_services( std::uint8_t*& output, std::uint8_t* end, std::uint16_t starting_index, std::uint16_t starting_handle, std::size_t ending_index, std::uint8_t& attribute_data_size, Server& server )
                 : output_( output )
                 , end_( end )
                 , index_( details::handle_index_mapping< Server >::first_index_by_handle( starting_index ) )
                 , starting_index_( details::handle_index_mapping< Server >::first_index_by_handle( starting_handle ) )
-                , ending_index_( ending_handle )
+                , ending_index_( ending_index )
                 , stoped_( false )
                 , first_( true )
                 , is_128bit_uuid_( true )
@@ -1338,7 +1337,7 @@ namespace bluetoe {
         ++begin; // room in the output for the size
 
         std::uint8_t* const data_begin = begin;
-        details::for_< services >::each( details::collect_primary_services< cccd_indices, services, server< Options... > >( begin, end, 1, starting_handle, ending_handle, *(begin -1 ), *this ) );
+        details::for_< services >::each( details::collect_primary_services< cccd_indices, services, server< Options... > >( begin, end, 1, starting_handle, last_handle_index( ending_handle ), *(begin -1 ), *this ) );
 
         if ( begin == data_begin )
         {
@@ -1668,9 +1667,13 @@ namespace bluetoe {
     {
         const std::size_t mapped = handle_mapping::first_index_by_handle( ending_handle );
 
-        return mapped == details::invalid_attribute_index
-            ? number_of_attributes - 1
-            : mapped;
+        if ( mapped == details::invalid_attribute_index )
+            return number_of_attributes - 1;
+
+        // if the ending handle points not on an existing attribute, the range ends at the next, lower handle
+        return handle_mapping::handle_by_index( mapped ) == ending_handle
+            ? mapped
+            : mapped - 1;
     }
 
     template < typename ... Options >
